@@ -8,6 +8,8 @@ use std::time::Duration;
 
 mod c02;
 mod c06;
+mod c44;
+mod c51;
 mod mix;
 
 fn main() {
@@ -15,7 +17,9 @@ fn main() {
     let code = match args.prop.as_str() {
         "C02" => c02::run(&args),
         "C06" => c06::run(&args),
-        "C03" | "C04" | "C05" | "C11" | "C43" | "C44" | "C49" | "C51" => mix::run(&args),
+        "C44" => c44::run(&args),
+        "C51" => c51::run(&args),
+        "C03" | "C04" | "C05" | "C11" | "C43" | "C49" => mix::run(&args),
         other => {
             eprintln!("rv-engine: no check named {other}");
             2
